@@ -99,7 +99,11 @@ static void eval_case(std::string_view input, const Base* b) {
     for (int t = 0; t < 2; t++) {
       const Obs& o = t ? oa : ou;
       std::string d = refbind::diff(o, rr, 0);
-      if (!d.empty()) viol("ref", d + (t ? ":aggregator" : ":url"), input, b, "ada=" + o.json() + " model=" + refbind::json(rr));
+      if (!d.empty()) {
+        // host-level disagreements on inputs inside the stale-IDNA-table scope carry the scope in their class
+        if (d.rfind("ok:", 0) == 0 || d == "href" || d == "host" || d == "hostname" || d == "origin") d += refbind::idna_stale_scope(in);
+        viol("ref", d + (t ? ":aggregator" : ":url"), input, b, "ada=" + o.json() + " model=" + refbind::json(rr));
+      }
     }
   }
 #endif
@@ -153,7 +157,7 @@ int main(int argc, char** argv) {
 
   // 1. E-tok
   int k_all = int(A.geti("ktok", T ? 5 : 4));       // full alphabet, all bases
-  int k_small = int(A.geti("ksmall", T ? 6 : 5));   // small alphabet, no base: one notch deeper
+  int k_small = int(A.geti("ksmall", T ? 7 : 6));   // small alphabet, no base: one notch deeper
   uint64_t n1 = enum_tokens(url_tokens(), 0, k_all, sh, ns, [&](const std::string& s, uint64_t) { eval_all_bases(s); });
   R.count("etok_strings", n1);
   uint64_t n1b = enum_tokens(url_tokens_small(), k_all + 1, k_small, sh, ns, [&](const std::string& s, uint64_t) { eval_case(s, nullptr); });
@@ -201,7 +205,7 @@ int main(int argc, char** argv) {
 
   // 3b. E-host: all hosts of <= kh characters in each host template (no base; template 3 against two special bases)
   {
-    int kh = int(A.geti("khost", T ? 6 : 5));
+    int kh = int(A.geti("khost", T ? 7 : 6));
     uint64_t n3b = 0;
     for (size_t ti = 0; ti < host_templates().size(); ti++) {
       auto& ht = host_templates()[ti];
